@@ -266,9 +266,14 @@ def chain_rules(rep, prog):
 
 
 def run(prog, rep, tier):
+    node_label_truthiness(rep, prog, [U + n_ for n_ in ['mec', 'all_dags', 'is_consistent_extension', 'chain_graph_MEC', 'vstructures', 'skeleton', 'only_directed']])
+    isin_over_sets(rep, prog, [U + n_ for n_ in ['mec', 'all_dags', 'is_consistent_extension', 'chain_graph_MEC', 'vstructures', 'skeleton', 'only_directed']])
     pattern_entries(prog, rep, [(U + "mec", "A"), (U + "is_consistent_extension", "G")])
     for q, p in ((U + "mec", "A"), (U + "imec", "A"), (U + "is_consistent_extension", "G")):
         dag_gate(rep, prog, q, p, rule="GATE")
+    # mec(A) = all_dags(dag_to_cpdag(A)): the class is enumerated from the CPDAG, so its construction is part of this property
+    from .C08 import cpdag_core
+    cpdag_core(rep, prog)
     member_rules(rep, prog)
     # membership compares *sets* of v-structure triples: the triples must be canonical ((min, c, max), unshielded colliders)
     from .C16 import vstructure_rules
